@@ -256,6 +256,15 @@ func (g *didGen) buildDoc(id string, k int, shape int) (string, *didtypes.DIDDoc
 		}
 		doc.Services = append(doc.Services, &didtypes.Service{Id: "svc1", Type: "LinkedDomains", ServiceEndpoint: ep})
 		g.add("DSVC %s %s %s %s", ref, toks("svc1"), toks("LinkedDomains"), toks(ep))
+		if g.r.Chance(40) {
+			// a longer service list, with ids that repeat: stored, returned and exported in the order given
+			for j := 0; j < 3+g.r.Intn(8); j++ {
+				id := fmt.Sprintf("svc%d", 1+g.r.Intn(5))
+				e := fmt.Sprintf("https://example.org/%d", j)
+				doc.Services = append(doc.Services, &didtypes.Service{Id: id, Type: "LinkedDomains", ServiceEndpoint: e})
+				g.add("DSVC %s %s %s %s", ref, toks(id), toks("LinkedDomains"), toks(e))
+			}
+		}
 	case 6: // malformed: verification method id without the DID prefix
 		vm("nokey", didtypes.ES256K_2019, key.b58)
 		relRef("auth", "nokey")
